@@ -452,6 +452,13 @@ pub mod publisher {
 //@ closure 1 ret st: Status
 //@ closure 1 ensures (match $1 { CreateTopicError::AlreadyExists => st.code == Code::AlreadyExists, CreateTopicError::Closed => st.code == Code::FailedPrecondition })
 //@end
+//@fn src/api/publisher.rs PublisherService::get_topic tags=C10 keep-paths=1
+//@ ret r
+//@ # C17 / C10: a name that does not parse is INVALID_ARGUMENT, an absent topic NOT_FOUND, an existing one is echoed
+//@ ensures[C17] parsed_topic(request.m.topic@).is_none() ==> err_code(r) == Some(Code::InvalidArgument)
+//@ ensures[C10] (match parsed_topic(request.m.topic@) { Some(n) => (self.topic_manager.lookup(n) matches Err(GetTopicError::DoesNotExist)) ==> err_code(r) == Some(Code::NotFound), None => true })
+//@ ensures[C10] (match r { Ok(resp) => exists|t: Arc<crate::topics::Topic>| #![trigger t.name] self.topic_manager.lookup(parsed_topic(request.m.topic@).unwrap()) == Ok::<Arc<crate::topics::Topic>, GetTopicError>(t) && resp.m.name@ == display_topic(t.name), Err(_) => true })
+//@end
 //@fn src/api/publisher.rs PublisherService::delete_topic tags=C10 keep-paths=1
 //@ ret r
 //@ # C17 / C10: a name that does not parse is INVALID_ARGUMENT, an absent topic NOT_FOUND
